@@ -196,12 +196,18 @@ impl Property for C11 {
         let need = InfoSubset::SURFACE | InfoSubset::POS_ID | InfoSubset::NORMALIZED_FORM;
         for t in &case.texts {
             let text = render_pieces(&keys, t);
+            if f7_guard(&mut rep, &case.dic, &case.cfg, &text, ctx.strict) {
+                continue;
+            }
             for mode in MODES {
                 let full = match analyze(&dict, &text, mode, None) {
                     Ok(m) => m,
                     Err(_) => continue,
                 };
-                for sb in &case.subsets {
+                // one result list serves the tokenizers of all four field requests (a list remembers the request of
+                // its last collect; that must not leak into the tokenizer that uses it next)
+                let mut ml = MorphemeList::empty(&dict);
+                for (k, sb) in case.subsets.iter().enumerate() {
                     let s = InfoSubset::from_bits_truncate(*sb as u32);
                     let mut tok = match case.order {
                         0 => {
@@ -227,9 +233,20 @@ impl Property for C11 {
                         rep.fail("subset-analysis-error", format!("text {:?} mode {} subset {:?}: full analysis succeeds, with the subset: {}", text, mode_name(mode), s, e));
                         return rep;
                     }
-                    let mut ml = MorphemeList::empty(&dict);
                     if ml.collect_results(&mut tok).is_err() {
                         continue;
+                    }
+                    if (text.len() + k) % 2 == 0 {
+                        // a second analysis on the same tokenizer after it exchanged buffers with the list (every other
+                        // field request, so that the list carries the request of another tokenizer when it happens)
+                        tok.reset().push_str(&text);
+                        if let Err(e) = tok.do_tokenize() {
+                            rep.fail("subset-analysis-error", format!("text {:?} mode {} subset {:?}: second analysis on the same tokenizer: {}", text, mode_name(mode), s, e));
+                            return rep;
+                        }
+                        if ml.collect_results(&mut tok).is_err() {
+                            continue;
+                        }
                     }
                     if let Err((clause, detail)) = check_partition(&text, &ml) {
                         rep.fail(&format!("subset-partition:{}", clause), format!("text {:?} mode {} subset {:?}: {}", text, mode_name(mode), s, detail));
